@@ -345,7 +345,7 @@ StrOut(b) ==
 StrOK(b) == Partitions(b, Unpack(b)) /\ Partitions(b, UnpackCID(b, 1)) /\ Partitions(b, Unpack13(b, 1, TRUE, TRUE))
 
 \* datagrams of legacy records: up to 3 records (type, body length), connection-id length n
-RecDesc12 == [type : {CT_handshake, CT_appdata, CT_cid}, blen : IF Big THEN {1, 2, 300} ELSE {1, 2, 40}]
+RecDesc12 == [type : {CT_handshake, CT_appdata, CT_cid}, blen : IF Big THEN {0, 1, 2, 300} ELSE {0, 1, 2, 40}]
 Dgram12Cases == [n : {0, 3}, recs : UNION {[1..m -> RecDesc12] : m \in 1..(IF Big THEN 3 ELSE 2)}]
 RECURSIVE BuildDgram12(_, _, _)
 BuildDgram12(recs, n, i) ==
@@ -380,7 +380,7 @@ Dgram12OK(c) ==
      /\ \A i \in 0..(Len(d) - 1) : ~UnpackCID(Take(d, i), c.n).ok \/ \E m \in 0..Len(c.recs) : Len(UnpackCID(Take(d, i), c.n).recs) = m /\ m < Len(c.recs)
 
 \* DTLS 1.3 datagrams: plaintext records and ciphertext records
-RecDesc13 == [kind : {"plain"}, type : {CT_handshake, CT_ack}, blen : {1, 20}, c : {FALSE}, s : {TRUE}, l : {TRUE}, cidv : {0}]
+RecDesc13 == [kind : {"plain"}, type : {CT_handshake, CT_ack}, blen : {0, 1, 20}, c : {FALSE}, s : {TRUE}, l : {TRUE}, cidv : {0}]
              \cup [kind : {"cipher"}, type : {0}, blen : IF Big THEN {15, 16, 40} ELSE {15, 16},
                    c : BOOLEAN, s : IF Big THEN BOOLEAN ELSE {TRUE}, l : BOOLEAN, cidv : {0, 1}]
 Dgram13Cases == [n : {0, 2}, req : BOOLEAN, cte : BOOLEAN, recs : UNION {[1..m -> RecDesc13] : m \in 1..2}]
